@@ -72,6 +72,23 @@ func HarnessC10RoundTrip() {
 			svAssume(c != '|')
 		}
 	}
+	// what the process did before is irrelevant for the round trip: optionally
+	// another message was rendered into a destination that failed part-way
+	if svParam("prior", 0) == 1 && svPick("aborted-render-of-another-message-before", 2) == 1 {
+		o := NewMsg(WithEncoding(menc))
+		_ = o.From("x@y.example")
+		_ = o.To("z@y.example")
+		o.Subject("another message")
+		o.SetBodyString(TypeTextPlain, "the body of a message whose transfer broke off: PREVIOUS PREVIOUS PREVIOUS PREVIOUS PREVIOUS\r\n")
+		ow := &hxRecW{}
+		_, _ = o.WriteTo(ow)
+		k := svInt("k")
+		svAssume(k >= 0)
+		svAssume(k < len(ow.buf))
+		_, oerr := o.WriteTo(&hxFailW{k: k})
+		svAssert(oerr != nil, "failed-render-without-error")
+		svReach("aborted-render-before")
+	}
 	m := NewMsg(WithEncoding(menc))
 	_ = m.FromFormat("Al Ice", "a@b.example")
 	// display names: none / with a comma (quoted-string) / non-ASCII with a comma
